@@ -393,6 +393,9 @@ def mk_backup(rng, prof_q, prof_z, prof_k):
     if (prof_k == 'often' and rng.random() < 0.6) or (prof_k == 'mixed' and rng.random() < 0.25):
         fl += 'k'
     st = dict(op='backup', flags=fl or '-', dt=rng.choice([1, 1, 1, 2, 3, 9]))
+    if rng.random() < 0.006:
+        st['dt'] = 0        # within the same second as the previous backup: outside the guarantee, the
+        #                     rest of the scenario is only compared with the model (name collisions)
     if rng.random() < 0.12:
         st['also2'] = rng.choice(['-', 'z', 'F', 'Fz'])     # feed a second repository too (slow mode)
     return st
@@ -1327,13 +1330,80 @@ def run_case(ck_tmp, case, tag):
                 trace=r.trace, excluded_notes=r.excluded_notes)
 
 
+class CaseTimeout(BaseException):
+    pass
+
+
+def _alarm(signum, frame):
+    raise CaseTimeout()
+
+
+CASE_TIMEOUT = 120
+
+
 def _worker(args):
     ck_tmp, case, tag = args
+    import signal
+    old = signal.signal(signal.SIGALRM, _alarm)
+    signal.alarm(CASE_TIMEOUT)
     try:
         return run_case(ck_tmp, case, tag)
+    except CaseTimeout:
+        # a blocked step (a lock never released, an endless loop) is a verdict with a failing input
+        return dict(lines=[], violations=[('C18:case-timeout', 'the scenario did not finish within %d s'
+                                           % CASE_TIMEOUT)],
+                    counts={'case-timeout': 1}, nontrivial=False, trace=[], excluded_notes=[])
     except Exception as e:       # harness trouble, not a verdict
         import traceback
         return dict(infra='%r\n%s' % (e, traceback.format_exc()))
+    finally:
+        signal.alarm(0)
+        signal.signal(signal.SIGALRM, old)
+
+
+def native_driver():
+    """path of the repozo model driver compiled natively from the C files `lake build` already produced
+    (same Lean code as `lean --run Drivers/Repozo.lean`, several times faster on byte lists of tens of
+    KB), or None when it cannot be built -- then the interpreted driver is used"""
+    import hashlib
+    import subprocess
+    from common import LEAN
+    srcs = [os.path.join(LEAN, '.lake', 'build', 'ir', *m.split('.')) + '.c'
+            for m in ('Drivers.Repozo', 'ZodbModel.Repozo', 'ZodbModel.DriverLib', 'ZodbModel.Basic')]
+    try:
+        h = hashlib.sha1()
+        for f in srcs:
+            with open(f, 'rb') as fh:
+                h.update(fh.read())
+        d = os.path.join(LEAN, '.lake', 'build', 'c18drv')
+        os.makedirs(d, exist_ok=True)
+        exe = os.path.join(d, 'repozo_driver-' + h.hexdigest()[:12])
+        if not os.path.exists(exe):
+            tmp = exe + '.%d.tmp' % os.getpid()
+            p = subprocess.run(['leanc', '-O2', '-o', tmp] + srcs, capture_output=True, text=True, timeout=300)
+            if p.returncode != 0:
+                return None
+            os.replace(tmp, exe)
+            for n in os.listdir(d):
+                if n.startswith('repozo_driver-') and os.path.join(d, n) != exe:
+                    try:
+                        os.unlink(os.path.join(d, n))
+                    except OSError:
+                        pass
+        return exe
+    except Exception:
+        return None
+
+
+def run_model(lines, exe):
+    if exe is None:
+        return run_driver('Repozo', lines, timeout=1500)
+    import subprocess
+    p = subprocess.run([exe], input='\n'.join(lines) + '\n', capture_output=True, text=True, timeout=1500)
+    out = p.stdout.splitlines()
+    if p.returncode != 0 or len(out) != len(lines):
+        return run_driver('Repozo', lines, timeout=1500)     # fall back to the interpreter
+    return out
 
 
 def drive(results, parallel):
@@ -1345,11 +1415,12 @@ def drive(results, parallel):
         chunks[i // per].append('reset')
         chunks[i // per] += [op for op, _ in res['lines']]
     chunks = [c for c in chunks if c]
+    exe = native_driver()
     if len(chunks) == 1:
-        return run_driver('Repozo', chunks[0], timeout=1500)
+        return run_model(chunks[0], exe)
     from concurrent.futures import ThreadPoolExecutor
     with ThreadPoolExecutor(len(chunks)) as ex:
-        outs = list(ex.map(lambda c: run_driver('Repozo', c, timeout=1500), chunks))
+        outs = list(ex.map(lambda c: run_model(c, exe), chunks))
     return [l for o in outs for l in o]
 
 
@@ -1391,7 +1462,7 @@ def main(argv=None):
     ck.extra['modules'] = ['Props.C18', 'Drivers.Repozo']
     ck.run_gate(ck.extra['modules'], ['Props.C18'])
     import ZODB.scripts.repozo  # noqa: F401  (fail early, as an infra error, if the import breaks)
-    nscen = 100 if not ck.thorough else 3000
+    nscen = 70 if not ck.thorough else 2500
     final = dict(variants=2, max_damages=20) if not ck.thorough else dict(variants=3, max_damages=None)
     cases = []
     if ck.replay_path:
@@ -1406,6 +1477,9 @@ def main(argv=None):
         if ck.rng.random() < 0.4:
             # the clock moves on during a repozo run: +n seconds after the k-th reading (cyclic)
             case['tick'] = ck.rng.choice([[1], [1], [0, 1], [1, 0], [2], [0, 0, 1], [1, 3]])
+        # how --repository / --file / --output are spelt: absolute, relative to the working directory,
+        # with a trailing slash, through a symbolic link, with a blank in the directory name
+        case['paths'] = ck.rng.choice(['abs', 'abs', 'rel', 'relslash', 'slash', 'symlink', 'space', 'space'])
         cases.append(case)
     jobs = [(ck.tmp, c, str(i)) for i, c in enumerate(cases)]
     if ck.thorough and len(jobs) > 8:
@@ -1436,7 +1510,20 @@ def main(argv=None):
                 if sig in seen_sigs:
                     continue
                 seen_sigs.add(sig)
+                if sig == 'C18:case-timeout':
+                    ck.violation(sig, what, case)
+                    continue
                 small, what2 = shrink(ck, case, sig)
+                if small.get('paths') == 'space':
+                    # is the blank in the repository path what it takes?
+                    try:
+                        plain = run_case(ck.tmp, dict(small, paths='abs'), 'noblank-%d' % len(seen_sigs))
+                        if not any(s_ == sig for s_, _ in plain['violations']):
+                            what2 = '%s [only with a blank in the repository path; there: %s]' % (
+                                what2 or what, sig)
+                            sig = 'C18:repository-path-with-whitespace'
+                    except Exception:
+                        pass
                 ck.violation(sig, what2 or what, small)
         diffs = [(i, op, real, m) for i, ((op, real), m) in enumerate(zip(res['lines'], mo))
                  if real is not None and not same(op, real, m)]
@@ -1461,8 +1548,12 @@ def main(argv=None):
              'times), one transaction left in progress (voted, not finished) while backups run, backups '
              'with every subset of -F -Q -z -k at scripted dates; then -R at every backup date, before the '
              'first, default date and partial dates, with/without -w/-o/pre-existing output; -V and -V -Q; '
-             'every single-file damage (missing, truncated, flipped byte; gzip too) followed by verify and '
-             'recover.  non-trivial = the executed trace contains an incremental backup after a full one, '
+             'every single-file damage (missing, truncated, flipped byte; gzip members cut at each boundary) '
+             'followed by verify and recover, in place and in a copy of the repository; also: empty '
+             'transactions, transactions > 64 KiB and ending on a READCHUNK boundary, a torn tail, databases of '
+             '4 bytes, metadata, a moved repository, a second repository, odd -D strings, stale siblings of the '
+             'output, repeated recoveries into one output, recovery into the live path, retry after a failed '
+             '-R -w, .index and .dat damages, every option/path spelling.  non-trivial = the executed trace contains an incremental backup after a full one, '
              'or a pack that changed the file between two backups; distinct by hash of the scenario',
         assumptions=[
             'MD5 collision-free (checksums are modelled by the bytes themselves); gzip round-trips '
@@ -1471,6 +1562,14 @@ def main(argv=None):
             'second; two backups within one second are outside the guarantee: run from corpus/C18/06, not '
             'judged, code and model compared, outcome under coverage.excluded_points)',
             'every repozo run, commit and pack is one atomic step (no race inside a repozo run)',
+            'oracle only (no model): a second repository fed from the same Data.fs by the same process; '
+            'usability of a recovered file next to a missing / truncated / older (same chain) restored index '
+            '(FileStorage must answer like a full scan: the index is only a cache); read-write open of the '
+            'recovered file next to stale .tmp/.old/.lock/.index_tmp/.pack siblings and in the live '
+            'database\'s own path; a .dat cut inside a line (nothing judged, only that every run ends)',
+            'option spellings (short/long, --opt=value, -v, order) and path spellings (absolute, relative, '
+            'trailing slash, symbolic link, blank in the directory name, moved repository) do not exist in '
+            'the model: the same model run is compared whatever the spelling',
             'QuickDetectable for --quick backups: the source is shorter than the last recorded end, or a '
             'byte inside the LAST chunk\'s range differs, or the backed-up prefix is unchanged; measured per '
             'quick backup (histogram quick-backup:QuickDetectable=...), the excluded point is run from '
